@@ -496,7 +496,42 @@ def run_roundtrip(ctx, p):
     ctx.nontrivial('roundtrip', which, unit, sorted(opts.items()), [float('%.9g' % x) for x in R.reshape(-1)])
 
 
-RUNNERS = {'extract': run_extract, 'class': run_class, 'construct': run_construct, 'roundtrip': run_roundtrip}
+def run_roundtrip_multi(ctx, p):
+    """objects holding N rotations: extract the N angle sets with the class method and hand exactly what it returned to the
+    class constructor; every value must come back (N = 3 included, where a transposed table would still be accepted)"""
+    import spatialmath as sm
+    Rs = [np.asarray(R, dtype=np.float64) for R in p['Rs']]
+    cname, which, unit, opts = p['cls'], p['which'], p['unit'], dict(p.get('opts', {}))
+    C = getattr(sm, cname)
+    sig = dict(api='roundtrip.%s.%s' % (cname, which), unit=unit, opts=opts, values=len(Rs))
+    try:
+        if cname == 'UnitQuaternion':
+            X = C([sm.base.r2q(R) for R in Rs])
+        elif cname == 'SE3':
+            X = C([ref.rt2tr(R, [1.0, 2.0, 3.0]) for R in Rs])
+        else:
+            X = C(Rs)
+        if which == 'rpy':
+            ang = X.rpy(unit=unit, **opts)
+            Y = C.RPY(ang, unit=unit, **opts) if cname != 'UnitQuaternion' else [sm.UnitQuaternion.RPY(a, unit=unit, **opts) for a in ang]
+        else:
+            ang = X.eul(unit=unit)
+            Y = C.Eul(ang, unit=unit) if cname != 'UnitQuaternion' else [sm.UnitQuaternion.Eul(a, unit=unit) for a in ang]
+        got = [np.asarray(y.R if hasattr(y, 'R') else y, dtype=np.float64) for y in Y]
+        got = [g[:3, :3] for g in got]
+    except Exception as e:
+        ctx.bad('extract', dict(sig, kind='raised', exc=type(e).__name__), 'multi-valued round trip %s.%s (%s) raised %r' % (cname, which, unit, e))
+        return
+    ok = len(got) == len(Rs)
+    worst = max(float(np.max(np.abs(g - R))) for g, R in zip(got, Rs)) if ok else math.inf
+    ctx.judge('extract', worst <= TOL, dict(sig, kind='library_roundtrip_multi'),
+              lambda: '%s holding %d rotations: %s(unit=%s, %s) returned an array of shape %s; rebuilding from it gives %d values differing from the originals by %.3g' % (
+                  cname, len(Rs), which, unit, opts, np.shape(ang), len(got), worst))
+    ctx.cell('roundtrip_multi', cname, which, unit, len(Rs))
+    ctx.nontrivial('roundtrip_multi', cname, which, unit, sorted(opts.items()), [float('%.9g' % x) for R in Rs for x in R.reshape(-1)])
+
+
+RUNNERS = {'extract': run_extract, 'class': run_class, 'construct': run_construct, 'roundtrip': run_roundtrip, 'roundtrip_multi': run_roundtrip_multi}
 
 
 # ----------------------------------------------------------------------------- workload
@@ -552,6 +587,12 @@ def run(ctx):
         opts = {'order': onames[rng.integers(6)]} if which == 'rpy' else {}
         drive(RUNNERS, ctx, 'roundtrip', dict(which=which, unit=['rad', 'deg'][rng.integers(2)], opts=opts,
                                               R=rotation_for(rng, 'tr2' + which, opts.get('order'))))
+    for _ in range(ctx.scale(500, 10000)):
+        which = ['rpy', 'eul'][rng.integers(2)]
+        opts = {'order': onames[rng.integers(6)]} if which == 'rpy' else {}
+        n = int([2, 3, 3, 4][rng.integers(4)])
+        drive(RUNNERS, ctx, 'roundtrip_multi', dict(cls=['SO3', 'SE3', 'UnitQuaternion'][rng.integers(3)], which=which, unit=['rad', 'deg'][rng.integers(2)], opts=opts,
+                                                    Rs=[rotation_for(rng, 'tr2' + which, opts.get('order')) for _ in range(n)]))
     for _ in range(ctx.scale(4000, 80000)):
         k = rng.integers(10)
         if k < 8:
